@@ -70,15 +70,18 @@ Theorem C37_chunkinfo_req_total : forall (self : list N) (fwd_ok : bool) (m : op
 Proof. exact chunkinfo_req_total. Qed.
 Print Assumptions C37_chunkinfo_req_total.
 
-(** multicast: group handshake, notify, find-group, multicast and group-message handlers *)
+(** multicast: group handshake, notify, find-group, multicast and group-message handlers.
+    [known] / [joined]: gids (ANY lengths, peer-chosen) of the groups with members; forwarding
+    compares them with [Closer], modelled with DistanceCmp's length guard and explicit index panics *)
 Theorem C37_multicast_handshake_notify_total : forall (self peer : list N) (gids : option (list (list N))) (n : option (Z * list (list N))),
   mc_handshake MaxPO self peer gids <> Panicked /\ mc_notify MaxPO self peer n <> Panicked.
 Proof. intros. split; [apply mc_handshake_total | apply mc_notify_total]. Qed.
 Print Assumptions C37_multicast_handshake_notify_total.
 
-Theorem C37_multicast_find_multicast_total : forall (max_ttl : Z) (served : bool) (m : option find_group_req) (self origin gid : list N) (mm : option unit),
-  mc_find_group max_ttl served m <> Panicked /\ mc_multicast self origin gid mm <> Panicked.
-Proof. intros. split; [apply mc_find_group_total | destruct mm; discriminate]. Qed.
+Theorem C37_multicast_find_multicast_total : forall (max_ttl : Z) (served : bool) (known joined : list (list N)) (m : option find_group_req)
+    (self origin gid : list N) (has_group : bool) (mm : option unit),
+  mc_find_group max_ttl served known joined m <> Panicked /\ mc_multicast self origin gid has_group known joined mm <> Panicked.
+Proof. intros. split; [apply mc_find_group_total | apply mc_multicast_total]. Qed.
 Print Assumptions C37_multicast_find_multicast_total.
 
 (** group message incl. the SendReceive session reader: any further bytes the peer sends *)
@@ -106,6 +109,12 @@ Theorem C37_retrieval_total : forall (self : list N) (has_chunk full root_known 
 Proof. exact retrieval_handler_total. Qed.
 Print Assumptions C37_retrieval_total.
 
+(** DistanceCmp as modelled here (explicit index panics) is the C20 function on all inputs *)
+Theorem C37_distance_cmp_is_C20 : forall a x y : list N,
+  distance_cmp_p a x y = Val (Aurora.C20.Model.distance_cmp a x y).
+Proof. exact distance_cmp_p_c20. Qed.
+Print Assumptions C37_distance_cmp_is_C20.
+
 (** non-vacuity: the models distinguish outcomes — a complete valid exchange succeeds,
     and the unrepaired code does panic on a SynAck without Syn *)
 Example C37_nonvacuous :
@@ -113,5 +122,7 @@ Example C37_nonvacuous :
      (Some (mkSynAck (Some (mkSyn [4])) (Some (mkAck (Some (mkBzz [4] [1] [2])) 7 [1] [])))) = Done 0 /\
   handshake_in true 7 (Some true) false (mkHsOrc true true true) (Some (mkSyn [4]))
      (Some (mkAck (Some (mkBzz [4] [1] [2])) 7 [1] [])) = Done 0 /\
-  handshake_out false 7 (mkHsOrc true true true) (Some (mkSynAck None None)) = Panicked.
+  handshake_out false 7 (mkHsOrc true true true) (Some (mkSynAck None None)) = Panicked /\
+  (* the length guard matters: with the guard of seeded change C37-1 the comparison panics *)
+  distance_cmp_g len_guard_and [7; 1] [7] [7; 2] = Pan /\ distance_cmp_p [7; 1] [7] [7; 2] = Val None.
 Proof. repeat split. Qed.
